@@ -189,6 +189,10 @@ def run(ctx):
             ctx.bad('C13.5-key-order', inst, 'the owned order reads %s of %s, the zero-copy order reads %s: map keys differing only in %s are merged by one decoder and kept apart by the other'
                     % (sorted(fo), ty.rsplit('::', 1)[1], sorted(fb), sorted(fo ^ fb)), key='TWIN:order-fields:%s' % ty)
 
+    ctx.rule('C13.6-map-key-order', 'the comparator rules of C11/C12 on the orders that key the two decoders\' maps (a key pair merged by one order and kept apart by the other makes the results differ)', floor=60)
+    from ..order import map_key_order_rules
+    map_key_order_rules(ctx, 'C13.6-map-key-order')
+
 
 def _offset_shape(B, c):
     def is_total(x):
